@@ -22,8 +22,8 @@ import PM.Fitter
 import PM.FitGuards
 namespace PM
 
-/-- `p` holds of every suffix of the list (the list itself and `[]` included) -/
-def suffixAll (p : List Node → Bool) : List Node → Bool
+/-- `p` holds of every suffix of the list of types (the list itself and `[]` included) -/
+def suffixAll (p : List TypeId → Bool) : List TypeId → Bool
   | [] => p []
   | k :: ks => p (k :: ks) && suffixAll p ks
 
@@ -63,7 +63,7 @@ mutual
 def Schema.fillableNode (S : Schema) : Node → Bool
   | .elem t _ _ kids =>
     decide (t < S.nodes.size) &&
-      suffixAll (fun ks => (fillBeforeTypes S (S.dfa t) 0 (S.types ks) false).isSome) kids && S.fillableKids kids
+      suffixAll (fun ts => (fillBeforeTypes S (S.dfa t) 0 ts false).isSome) (S.types kids) && S.fillableKids kids
   | _ => true
 def Schema.fillableKids (S : Schema) : List Node → Bool
   | [] => true
@@ -75,7 +75,7 @@ end
     node left, and a node that is open on both sides loses children from the front.) -/
 def Schema.endChainOk (S : Schema) : List Node → Bool
   | [] => true
-  | [.elem t _ _ kids] => suffixAll (fun ks => ((S.dfa t).run 0 (S.types ks)).isSome) kids && S.endChainOk kids
+  | [.elem t _ _ kids] => suffixAll (fun ts => ((S.dfa t).run 0 ts).isSome) (S.types kids) && S.endChainOk kids
   | [_] => true
   | _ :: n :: ns => S.endChainOk (n :: ns)
 
